@@ -156,9 +156,6 @@ func c05Run(c *mc.Ctx) {
 			err = h.DelExtension(id)
 			trace = append(trace, fmt.Sprintf("Del(%d)=%v", id, err != nil))
 			if err == nil {
-				if _, ok := m.vals[id]; !ok {
-					c.Failf("del-absent-succeeded", "%s: DelExtension(%d) returned nil for an id that is not present", hist(), id)
-				}
 				m.del(id)
 			}
 		}
@@ -314,9 +311,6 @@ func c05Long(c *mc.Ctx) {
 			err = h.DelExtension(op.id)
 			trace = append(trace, fmt.Sprintf("Del(%d)=%v", op.id, err != nil))
 			if err == nil {
-				if _, ok := m.vals[op.id]; !ok {
-					c.Failf("del-absent-succeeded", "%s: DelExtension(%d) returned nil for an id that is not present", hist(), op.id)
-				}
 				m.del(op.id)
 			}
 		}
